@@ -57,6 +57,21 @@ def random_spec(seed):
             vals.append(rng.choice(nunknown_vals))
         else:
             vals.append(rng.choice(pool))
+    mf = rng.choice([[1, 10], [3, 20], [1, 5], [1, 4], [1, 3]])
+    if rng.random() < 0.12:
+        # boundary: the most frequent value holds exactly min_freq of the rows, every other value less
+        k = max(2, (n * mf[0]) // mf[1])
+        n = k * mf[1] // mf[0] if (k * mf[1]) % mf[0] == 0 else n
+        if n * mf[0] % mf[1] == 0:
+            k = n * mf[0] // mf[1]
+            others = [v for v in leaves]
+            vals = [leaves[0]] * k
+            i = 0
+            while len(vals) < n:
+                v = others[1 + i % (len(others) - 1)] if len(others) > 1 else None
+                vals.append(v if (v is None or vals.count(v) < k - 1) else None)
+                i += 1
+            rng.shuffle(vals)
     if numeric:
         conv = rng.choice([int, float])
         vals = [conv(v) if (v is not None and v.isdigit()) else v for v in vals]
@@ -64,7 +79,7 @@ def random_spec(seed):
     y[0], y[1] = 0, 1
     spec = {'cls': 'ChainedDiscretizer', 'features': {'f': {'kind': 'categ', 'values': vals}}, 'y': y,
             'chained_orders': levels,
-            'params': {'min_freq': rng.choice([[1, 10], [3, 20], [1, 5], [1, 4], [1, 3]]),
+            'params': {'min_freq': mf,
                        'unknown_handling': rng.choice(['raise', 'drop']), 'copy': True},
             'hier': {'nodes': nodes, 'par': {k: v for k, v in par.items()}, 'lvl': lvl}}
     return spec
@@ -102,11 +117,13 @@ def fit_case(spec, tag=''):
     case = {'id': tag, 'par': [idx.get(hier['par'].get(v), 0) for v in nodes], 'lvl': [hier['lvl'][v] for v in nodes],
             'cnt': cnt, 'n': n, 'mf': list(spec['params']['min_freq']), 'outcome': E.outcome_code(exc),
             'policy': spec['params']['unknown_handling'], 'nunknown': len(unknown), 'nanrows': nanrows,
-            'leader': [0] * len(nodes), 'unkleader': [], 'wf': True, 'out': [],
+            'leader': [0] * len(nodes), 'unkleader': [], 'wf': True, 'out': [], 'removed': False,
             'meta': {'driver': 'chained.fit_case', 'args': {'spec': spec}, 'exc': E.exc_text(exc)}}
-    if exc is not None or 'f' not in o.features:
-        if exc is None:
-            case['skip'] = 'feature_removed'
+    if exc is not None:
+        return case
+    if 'f' not in o.features:
+        # the feature was dropped: only allowed when no training value reaches min_freq
+        case['removed'] = True
         return case
     vo = o.values_orders['f']
     flat = [m for k in vo for m in vo.content.get(k, [])]
